@@ -143,6 +143,7 @@ func totalEvent(c *ctx, name string, b []byte) M {
 	in, backing := withSpare(b) // the input is a sub-slice with spare capacity: writes beyond it are observed too
 	before := string(backing)
 	k := c.key()
+	inflight("total/"+name, b)
 	res, _ := observe(func() error { return entries[name](in, k) })
 	return M{"ev": "total", "entry": name, "len": len(b), "err": res, "intact": string(backing) == before, "head": bs(b[:min(len(b), 24)])}
 }
